@@ -246,6 +246,12 @@ func (c *Ctx) Run(ty, ver byte, h, f, r uint32, entries []Entry, ins, outs []byt
 	}
 	para := &transaction.TransactionParameters{Transaction: txn, BlockHeight: h, TimeStamp: 0, Config: &params, BlockChain: n.Chain}
 	txn.SetParameters(para)
+	if Pow {
+		st := n.Chain.GetState()
+		saved := st.ConsensusAlgorithm
+		st.ConsensusAlgorithm = state.POW
+		defer func() { st.ConsensusAlgorithm = saved }()
+	}
 	_, err := txn.ContextCheck(para)
 	n.Chain.UTXOCache.CleanCache()
 	LastNil = err == nil
@@ -324,7 +330,12 @@ func letters(s string) []byte {
 }
 
 // Exec runs a ctx op.
+// Pow, when set, makes the DPoS state report the POW fallback consensus (after RevertToPOW) during Run.
+var Pow bool
+
 func Exec(t []string) string {
+	Pow = t[0] == "ctxpow"
+	defer func() { Pow = false }()
 	return Get().Run(byte(u32(t[1])), byte(u32(t[2])), u32(t[3]), u32(t[4]), u32(t[5]), ParseEntries(t[6]), letters(t[7]), letters(t[8]))
 }
 
@@ -405,6 +416,18 @@ func Gen(g *hx.Gen) {
 			}
 		}
 	}
+	// the same under the POW fallback consensus (after RevertToPOW): the policies do not depend on it
+	for _, sh := range shapes[:2] {
+		for _, fr := range frs[:2] {
+			for h := uint32(1); h <= 8; h++ {
+				for _, l := range []string{"-", "F:4"} {
+					for _, in := range []string{"F", "O", "X", "XO", "XX"} {
+						g.Emit("ctxpow %d %d %d %d %d %s %s %s", sh[0], sh[1], h, fr[0], fr[1], l, in, "OF")
+					}
+				}
+			}
+		}
+	}
 	for _, sh := range shapes {
 		for _, fr := range frs {
 			for h := uint32(1); h <= 8; h++ {
@@ -430,6 +453,8 @@ func Gen(g *hx.Gen) {
 //	      pool : TxPool.AppendToTxPool            (mempool admission: validates for best height + 1)
 //	      block: assemble + BlockChain.ProcessBlock (block validation: validates for block.Height)
 //	      rpc  : servers.SendRawTransaction with the serialised transaction (then the mempool)
+//	      seen : first offered to the pool one block earlier (still allowed), then in a block at height h
+//	      reorg: in the height-h block of a side chain that out-works the main chain (reorganizeChain)
 //	    Output as for ctx: passed | cc … | fz …   ("passed" = no policy refused it; LastNil = it was accepted);
 //	    on the block path: passed (block connected) | rejected (a context check of block validation refused).
 
@@ -572,7 +597,11 @@ func E2E(t []string) string {
 	} else {
 		mine(nil) // height 2
 	}
-	for _, hh := node.Tip(); hh+1 < h; _, hh = node.Tip() {
+	target := h // the chain is mined until the next block is `target`
+	if path == "seen" {
+		target = h - 1
+	}
+	for _, hh := node.Tip(); hh+1 < target; _, hh = node.Tip() {
 		mine(nil)
 	}
 	if in != "X" {
@@ -580,6 +609,14 @@ func E2E(t []string) string {
 	}
 	LastNil, LastErr = false, ""
 	var msgText string
+	if path == "seen" {
+		// the node sees the transaction while it is still allowed (next block h-1) …
+		if e := node.Pool.AppendToTxPool(tx); e != nil {
+			return "n/a refused when first seen"
+		}
+		mine(nil)      // … the chain moves on to h-1 without it …
+		path = "block" // … and it is offered in a block at height h
+	}
 	switch path {
 	case "pool":
 		if e := node.Pool.AppendToTxPool(tx); e != nil {
@@ -601,6 +638,36 @@ func E2E(t []string) string {
 			}
 			return "rejected-other " + strings.ReplaceAll(err.Error(), " ", "_")
 		}
+	case "reorg":
+		// the transaction reaches the main chain through a reorganisation: a side chain forks two blocks below
+		// the tip (the main chain stands at h), carries the transaction in its block at height h and
+		// out-works the main chain with one more block
+		mine(nil) // main chain now at height h
+		fork := node.Block(node.ActiveChain()[h-2])
+		if fork == nil {
+			panic("harness: fork point not found")
+		}
+		s1, err := node.Mine(fork, nil, regnet.MineOpts{Miner: 4}) // height h-1 on the side chain
+		if err != nil {
+			panic("harness: mine: " + err.Error())
+		}
+		node.Deliver(s1)
+		s2, err := node.Mine(s1, []interfaces.Transaction{tx}, regnet.MineOpts{Miner: 4}) // height h, with the transaction
+		if err != nil {
+			panic("harness: mine: " + err.Error())
+		}
+		node.Deliver(s2)
+		s3, err := node.Mine(s2, nil, regnet.MineOpts{Miner: 4}) // height h+1: more work than the main chain
+		if err == nil {
+			node.Deliver(s3)
+		}
+		active := node.ActiveChain()
+		if int(h) < len(active) && active[h] == s2.Hash() {
+			LastNil, LastErr = true, ""
+			return "passed" // the block with the transaction is part of the main chain
+		}
+		LastNil, LastErr = false, "side chain block not connected"
+		return "rejected"
 	case "rpc":
 		servers.Chain, servers.Store, servers.TxMemPool, servers.ChainParams, servers.Server = node.Chain, node.Store, node.Pool, node.Params, relayStub{}
 		buf := new(bytes.Buffer)
@@ -649,6 +716,17 @@ func E2EGen(g *hx.Gen, frozenFocus bool) {
 				g.Emit("e2e %s %d 4294967295 4294967295 G:5 A FO", p, h) // untouched
 			}
 			g.Emit("e2e %s 5 4294967295 4294967295 n:1,F:5 A OF", p)
+			if p == "block" {
+				for _, h := range []uint32{5, 6} { // start 6: first seen while allowed, offered again at h
+					g.Emit("e2e seen %d 4294967295 4294967295 F:6 A F", h)
+					g.Emit("e2e seen %d 4294967295 4294967295 A:6 A O", h)
+				}
+				for _, h := range []uint32{5, 6} { // start 6: through a reorganisation
+					g.Emit("e2e reorg %d 4294967295 4294967295 F:6 A F", h)
+					g.Emit("e2e reorg %d 4294967295 4294967295 A:6 A O", h)
+					g.Emit("e2e reorg %d 4294967295 4294967295 G:6 A O", h)
+				}
+			}
 		} else {
 			for _, h := range []uint32{3, 4, 5, 6, 7} { // freeze 4, restriction 6
 				if p != "block" { // an unsigned spend never gets into a block whatever the policy says
